@@ -13,49 +13,10 @@ import (
 	"strconv"
 	"strings"
 
-	"github.com/tidwall/tile38/verifapi"
 	"verifharness/internal/hx"
 	"verifharness/internal/model"
 	"verifharness/internal/srv"
 )
-
-// jsonPathValue is what field.List.Get(name) answers through a JSON path for an object whose stored
-// fields (as RESP lists them: name -> Data()) are given: name = j.p, the object stores a JSON-valued
-// field j and gjson finds p in it.  Computed with the libraries directly (field.ValueOf's
-// classification, gjson.Get), not from the reply under test.  kind: gjson's type of the result.
-//
-// scanJSONPathInTree: the modelled tree has the open finding C17-scan-json-path-field.  When
-// proposed_fixes/C17-scan-json-path-field.diff is committed in /repo set this to false (the JSON arm
-// then looks the stored field up, it_jpath is always empty and wf_res's last conjunct always holds).
-const scanJSONPathInTree = true
-
-func jsonPathValue(stored map[string]string, name string) (kind int, data string, ok bool) {
-	dot := strings.IndexByte(name, '.')
-	if dot < 0 || !scanJSONPathInTree {
-		return 0, "", false
-	}
-	j, p := name[:dot], name[dot+1:]
-	v, has := stored[j]
-	if !has {
-		return 0, "", false
-	}
-	if k, _ := verifapi.KsValueOf(v); k != 5 { // field.JSON
-		return 0, "", false
-	}
-	exists, k, str, _ := verifapi.KsGjsonGet(v, p)
-	if !exists {
-		return 0, "", false
-	}
-	switch k { // bfield: null / false / true have one spelling
-	case 0:
-		str = "null"
-	case 1:
-		str = "false"
-	case 4:
-		str = "true"
-	}
-	return k, str, true
-}
 
 func scanOutKind(args []string) string {
 	kind := "objects"
@@ -146,7 +107,6 @@ func (b *bb) scanModel(cmd string, args []string, jd jdoc, rv srv.Value) {
 	distout := hasWord(args, "DISTANCE")
 	cursor := int64(0)
 	var toks []string
-	var stored []map[string]string
 	names := map[string]bool{}
 	if kind != "count" {
 		if rv.Kind != '*' || len(rv.Array) != 2 {
@@ -184,15 +144,6 @@ func (b *bb) scanModel(cmd string, args []string, jd jdoc, rv srv.Value) {
 				}
 				var jvals []json.RawMessage
 				json.Unmarshal(jm["fields"], &jvals)
-				st := map[string]string{}
-				for _, e := range ri.Array[2:] {
-					if e.Kind == '*' {
-						for k := 0; k+1 < len(e.Array); k += 2 {
-							st[e.Array[k].Str] = e.Array[k+1].Str
-						}
-					}
-				}
-				stored = append(stored, st)
 				for _, e := range ri.Array[2:] {
 					if e.Kind == '*' {
 						var fs []string
@@ -231,32 +182,12 @@ func (b *bb) scanModel(cmd string, args []string, jd jdoc, rv srv.Value) {
 		}
 	}
 	nameTok := "."
-	anyPath := false
 	if len(names) > 0 {
 		var l []string
 		for n := range names {
 			l = append(l, n)
 		}
 		sort.Strings(l)
-		// the listed names an object answers through a JSON path (field.List.Get): 8th component
-		if kind == "objects" && len(stored) == len(toks) {
-			for i, st := range stored {
-				var jp []string
-				for _, n := range l {
-					if k, data, ok := jsonPathValue(st, n); ok {
-						fk := "t"
-						if k == 3 {
-							fk = "s"
-						}
-						jp = append(jp, model.H(n)+"="+fk+"="+model.H(data))
-					}
-				}
-				if len(jp) > 0 {
-					anyPath = true
-					toks[i] += ":" + strings.Join(jp, ";")
-				}
-			}
-		}
 		for i := range l {
 			l[i] = model.H(l[i])
 		}
@@ -277,12 +208,7 @@ func (b *bb) scanModel(cmd string, args []string, jd jdoc, rv srv.Value) {
 		fail("the model driver did not render the result: "+trunc(strings.Join(out, " "), 200), nil, nil)
 		return
 	}
-	if anyPath {
-		// open finding C17-scan-json-path-field: wf_res does not hold (c17_scan_json_path_field_refuted);
-		// the renderings are still compared with the real replies, the disagreement itself is reported
-		// by the black-box oracle under its own signature
-		b.r.Dist("model:scan_render-json-path")
-	} else if out[2] != "1" {
+if out[2] != "1" {
 		fail("Model.JsonScan: proj_json / proj_resp of the renderings differ from abs_of on a real result (is the wf_res hypothesis violated?)", nil, nil)
 	}
 	if out[1] != canonRESP(rv) {
